@@ -19,7 +19,7 @@ UNDEF = _Mark("UNDEF")
 SKIP = _Mark("SKIP")
 
 MAX_BITS = 6000
-NEAR = Fraction(1, 10 ** 9)
+NEAR = Fraction(1, 10 ** 9)  # discontinuity guard: wider than the comparison tolerance on purpose
 
 
 class State:
